@@ -31,11 +31,11 @@ RULE = (
     "only in punctuation}. distinct = by template text; non-trivial = the template has at least one def or "
     "non-ASCII character and all paths produced output."
 )
-RULE += ' added since: legacy and wide source encodings (utf-16/32) on file paths, twin templates surviving garbage collection of the other, mako-render failures, sibling URIs compared by full output / list_defs / get_def(..).render/.source/.code, templates printing their own local.uri and self.uri. defs of inheriting templates rendered alone through get_def() and inside a full render, on four lookup paths. preprocessor= (list and single callable) on the string, file, module-directory and lookup paths against the preprocessed text compiled directly; lexer_cls= subclass used exactly once. strict_undefined templates with several missing names and sibling nested defs whose defaults call one another, compared across hash seeds including the NameError text.'
+RULE += ' added since: legacy and wide source encodings (utf-16/32) on file paths, twin templates surviving garbage collection of the other, mako-render failures, sibling URIs compared by full output / list_defs / get_def(..).render/.source/.code, templates printing their own local.uri and self.uri. defs of inheriting templates rendered alone through get_def() and inside a full render, on four lookup paths. preprocessor= (list and single callable) on the string, file, module-directory and lookup paths against the preprocessed text compiled directly; lexer_cls= subclass used exactly once. strict_undefined templates with several missing names and sibling nested defs whose defaults call one another, compared across hash seeds including the NameError text. every option TemplateLookup forwards (17, one at a time, plus module_writer) probed by behaviour on five routes: direct Template, lookup from file, lookup with module_directory, put_string, <%include> target.'
 ASSUMPTIONS = ["mako-render is driven without --output-encoding (it crashes with that option, outside the statement)",
                "context values are strings so that the command line can pass them"]
 MIN_NONTRIVIAL = 100
-REQUIRED_COUNTERS = ["templates", "paths_compared", "hash_seed_children", "cmdline_runs", "get_def_compared", "module_template_renders", "lookup_variants", "source_checks", "inheriting_get_def_compared", "preprocessor_paths_compared"]
+REQUIRED_COUNTERS = ["templates", "paths_compared", "hash_seed_children", "cmdline_runs", "get_def_compared", "module_template_renders", "lookup_variants", "source_checks", "inheriting_get_def_compared", "preprocessor_paths_compared", "lookup_option_routes"]
 SHARDS = {"quick": 16, "thorough": 32}
 
 _st = {}
@@ -546,7 +546,172 @@ def run_inheriting_get_def(r, res):
         shutil.rmtree(d, ignore_errors=True)
 
 
+def run_lookup_options(res):
+    """every option that Template takes and TemplateLookup takes on its behalf means the same on a template the
+    lookup builds (from a file, from put_string, as an <%include> target) as on one constructed directly"""
+    from mako import cache as mcache
+    T = _st["Template"]
+    L = _st["TemplateLookup"]
+    _st["n"] += 1
+    d = os.path.join(_st["tmp"], "lo%d" % _st["n"])
+    root = os.path.join(d, "root")
+    os.makedirs(root)
+    seen_args = []
+
+    class RecImpl(mcache.CacheImpl):
+        store = {}
+
+        def __init__(self, cache):
+            super().__init__(cache)
+            seen_args.append(dict(cache.template.cache_args))
+
+        def get_or_create(self, key, creation_function, **kw):
+            seen_args.append(("call", key, dict(kw)))
+            if key not in self.store:
+                self.store[key] = creation_function()
+            return self.store[key]
+
+        def set(self, key, value, **kw):
+            self.store[key] = value
+
+        def get(self, key, **kw):
+            return self.store.get(key)
+
+        def invalidate(self, key, **kw):
+            self.store.pop(key, None)
+
+    try:
+        mcache.register_plugin("c08rec", __name__, "RecImplHolder")
+    except Exception:
+        pass
+    globals()["RecImplHolder"] = RecImpl
+    handled = []
+
+    def handler(context, error):
+        handled.append(type(error).__name__)
+        context.write("<H>")
+        return True
+
+    used_lexers = []
+
+    class CountingLexer(_st["Lexer"]):
+        def parse(self):
+            used_lexers.append(1)
+            return super().parse()
+
+    written = []
+
+    def writer(source, dest):
+        written.append(os.path.basename(dest))
+        os.makedirs(os.path.dirname(dest), exist_ok=True)
+        with open(dest, "wb") as f:
+            f.write(source)
+
+    ticks = []
+
+    def tick():
+        ticks.append(1)
+        return len(ticks)
+
+    # (option set, template source, context, how to render, expected result or predicate)
+    probes = [
+        ("default_filters", {"default_filters": ["str", "trim"]}, "[${'  a  '}]", {}, "u", "[a]"),
+        ("buffer_filters", {"buffer_filters": ["trim"]}, '<%def name="b()" buffered="True">  x  </%def>[${b()}]', {}, "u", "[x]"),
+        ("strict_undefined", {"strict_undefined": True}, "${nope}", {}, "u", "NameError: 'nope' is not defined"),
+        ("imports", {"imports": ["from os.path import basename"]}, "${basename('/a/b')}", {}, "u", "b"),
+        ("future_imports", {"future_imports": ["annotations"]}, "<%!\ndef f(a: NoSuchType_):\n    return 'ok'\n%>${f(1)}", {}, "u", "ok"),
+        ("enable_loop", {"enable_loop": False}, "% for i in (1,):\n${loop}\n% endfor\n", {"loop": "L"}, "u", "L\n"),
+        ("output_encoding+encoding_errors", {"output_encoding": "ascii", "encoding_errors": "xmlcharrefreplace"}, "café", {}, "b", b"caf&#233;"),
+        ("format_exceptions", {"format_exceptions": True}, "${1/0}", {}, "u", lambda o: isinstance(o, str) and "ZeroDivisionError" in o and "<html" in o.lower()),
+        ("error_handler", {"error_handler": handler}, "a${1/0}b", {}, "u", "a<H>"),
+        ("preprocessor", {"preprocessor": [lambda t_: t_ + "<PP>"]}, "x", {}, "u", "x<PP>"),
+        ("lexer_cls", {"lexer_cls": CountingLexer}, "lx", {}, "u", "lx"),
+        ("cache_enabled", {"cache_enabled": False, "cache_impl": "c08rec"}, '<%def name="c()" cached="True">${tick()}</%def>${c()}${c()}', {"tick": tick}, "u", "12"),
+        ("cache_impl+cache_args", {"cache_impl": "c08rec", "cache_args": {"flavour": "F1"}}, '<%def name="c()" cached="True" cache_timeout="7">v</%def>${c()}', {}, "u", "v"),
+        ("cache_type/cache_dir (legacy)", {"cache_impl": "c08rec", "cache_type": "memory", "cache_dir": "/nonexistent-c08"}, '<%def name="c()" cached="True">w</%def>${c()}', {}, "u", "w"),
+        ("input_encoding", {"input_encoding": "latin-1"}, "café", {}, "u", "café"),
+        # (the handler is the INCLUDED template's: "runs when this template is included within another one"; what the
+        # include wrote before failing stays)
+        ("include_error_handler", {"include_error_handler": handler}, 'a<%include file="/bad.html"/>b', {}, "u", "ax<H>b"),
+    ]
+    try:
+        with open(os.path.join(root, "bad.html"), "w") as f:
+            f.write("x${1/0}y")
+        for name, opts, src, ctx, how, exp in probes:
+            enc = "latin-1" if name == "input_encoding" else "utf-8"
+            fnm = "p_%s.html" % "".join(c if c.isalnum() else "_" for c in name)
+            with open(os.path.join(root, fnm), "w", encoding=enc, newline="") as f:
+                f.write(src)
+            with open(os.path.join(root, "w_" + fnm), "w") as f:
+                f.write('<%%include file="/%s"/>' % fnm)
+            routes = {
+                "direct Template(filename=)": lambda: T(filename=os.path.join(root, fnm), lookup=L(directories=[root]), **opts),
+                "TemplateLookup.get_template": lambda: L(directories=[root], **opts).get_template("/" + fnm),
+                "TemplateLookup + module_directory": lambda: L(directories=[root], module_directory=os.path.join(d, "m_" + fnm), **opts).get_template("/" + fnm),
+                "target of an <%include> in that lookup": lambda: L(directories=[root], **opts).get_template("/w_" + fnm),
+            }
+            if name != "input_encoding":
+                routes["TemplateLookup.put_string"] = lambda: _put(L(directories=[root], **opts), "/ps.html", src)
+            for rname, ctor in routes.items():
+                del handled[:], used_lexers[:], seen_args[:], ticks[:]
+                RecImpl.store.clear()
+                res.evaluations += 1
+                res.count("lookup_option_routes")
+                try:
+                    t = ctor()
+                    got = t.render_unicode(**ctx) if how == "u" else t.render(**ctx)
+                except Exception as e:
+                    got = "%s: %s" % (type(e).__name__, e)
+                if rname.startswith("target of") and how == "b":
+                    pass  # (the including template encodes; the identity is the same)
+                if name == "include_error_handler" and rname.startswith("direct"):
+                    continue  # /bad.html comes from a lookup without the handler there
+                want = exp + "<PP>" if (name == "preprocessor" and rname.startswith("target of")) else exp  # the including template is preprocessed too
+                ok = want(got) if callable(want) else got == want
+                extra = None
+                if ok and name == "lexer_cls" and len(used_lexers) < 1:
+                    ok, extra = False, "the Lexer subclass was not used"
+                if ok and name == "cache_impl+cache_args":
+                    a0 = [a for a in seen_args if isinstance(a, dict)]
+                    c0 = [a for a in seen_args if isinstance(a, tuple)]
+                    if not a0 or a0[0].get("flavour") != "F1" or not c0 or c0[0][2].get("timeout") != 7:
+                        ok, extra = False, "the backend saw %r" % (seen_args,)
+                if ok and name.startswith("cache_type"):
+                    a0 = [a for a in seen_args if isinstance(a, dict)]
+                    if not a0 or a0[0].get("type") != "memory" or a0[0].get("dir") != "/nonexistent-c08":
+                        ok, extra = False, "the backend saw %r" % (seen_args,)
+                if ok and name in ("error_handler", "include_error_handler") and handled != ["ZeroDivisionError"]:
+                    ok, extra = False, "the handler was called for %r" % (handled,)
+                if not ok:
+                    res.violate("option-lost-on-route", "option %s (%r), template %r built as %s: rendered %r%s" % (name, sorted(opts), src, rname, got, "; " + extra if extra else ""))
+            res.nontrivial("lookup-option", name)
+        # module_writer (needs a module path): called once per build, by lookup and direct construction alike
+        for rname, ctor in (
+            ("direct", lambda: T(filename=os.path.join(root, "p_imports.html"), module_directory=os.path.join(d, "mw1"), module_writer=writer, imports=["from os.path import basename"])),
+            ("lookup module_directory", lambda: L(directories=[root], module_directory=os.path.join(d, "mw2"), module_writer=writer, imports=["from os.path import basename"]).get_template("/p_imports.html")),
+            ("lookup modulename_callable", lambda: L(directories=[root], modulename_callable=lambda f_, u_: os.path.join(d, "mw3", "m.py"), module_writer=writer,
+                                                     imports=["from os.path import basename"]).get_template("/p_imports.html")),
+        ):
+            del written[:]
+            res.evaluations += 1
+            res.count("lookup_option_routes")
+            try:
+                out = ctor().render_unicode()
+            except Exception as e:
+                out = "%s: %s" % (type(e).__name__, e)
+            if out != "b" or len(written) != 1:
+                res.violate("option-lost-on-route", "module_writer through %s: rendered %r, writer calls %r" % (rname, out, written))
+    finally:
+        shutil.rmtree(d, ignore_errors=True)
+
+
+def _put(lk, uri, text):
+    lk.put_string(uri, text)
+    return lk.get_template(uri)
+
+
 def gen_cases(tier, seed):
+    yield {"kind": "lookup-options"}
     n = 640 if tier == "quick" else 6000
     per = 10
     for i in range(n // per):
@@ -577,6 +742,8 @@ def run_case(case):
             shutil.rmtree(base, ignore_errors=True)
     elif case["kind"] == "lookup":
         run_lookup_variants(common.rng_for(case["seed"], "c08lk", case["index"]), res)
+    elif case["kind"] == "lookup-options":
+        run_lookup_options(res)
     elif case["kind"] == "inhdef":
         r = common.rng_for(case["seed"], "c08ig", case["index"])
         for _ in range(5):
